@@ -728,6 +728,26 @@ impl Interpreter {
     // Call Stack Depth
     // ═══════════════════════════════════════════════════════════════════════════
 
+    /// Verification hook: read-only view of the run-related state.
+    #[cfg(tsrun_verif)]
+    pub fn verif_quiescence(&self) -> crate::verif::Quiescence {
+        crate::verif::Quiescence {
+            env_is_global: Gc::ptr_eq(&self.env, &self.global_env),
+            env_guards: self.env_guards.len(),
+            call_stack: self.call_stack.len(),
+            active_vm: self.active_vm.is_some(),
+            pending_orders: self.pending_orders.len(),
+            cancelled_orders: self.cancelled_orders.len(),
+            order_responses: self.order_responses.len(),
+            suspended_for_order: self.suspended_for_order.is_some(),
+            wait_contexts: self.wait_graph.contexts.len(),
+            ready_queue: self.wait_graph.ready_queue.len(),
+            pending_program: self.pending_program.is_some(),
+            pending_modules: self.pending_module_sources.len(),
+            exports: self.exports.len(),
+        }
+    }
+
     /// Get the current call stack depth.
     ///
     /// Returns the total depth combining the interpreter's call stack and
